@@ -645,7 +645,7 @@ func (l *vsLineage) open(dir string) bool {
 func (l *vsLineage) newScheduler() {
 	t := l.r.Tape
 	cfg := applySchedulerConfig{
-		MaxEntries: []int{0, 1, 2, 3, 5, 8}[t.Intn(6)],
+		MaxEntries: []int{0, 8, 5, 3, 2, 1}[t.Weighted([]int{3, 2, 2, 2, 2, 1})],
 		MaxBytes:   []uint64{0, 300, 900, 2500, 30000}[t.Intn(5)],
 	}
 	// The real constructor allocates a 1024-slot job channel (unused here: jobs
